@@ -198,6 +198,13 @@ def gen_cfg(rng, thorough, force=None):
         if rng.random() < 0.7:
             edges[0] = 0.0
         edges = edges * geo
+    # standard_bins overrides (only used when no edges are given); max_dist in the unit of geo_scale
+    stdkw = {}
+    if edges is None and rng.random() < 0.5:
+        if rng.random() < 0.7:
+            stdkw["max_dist"] = float(rng.uniform(0.2, 2.5) * geo) if latlon else float(rng.uniform(0.5, 6.0))
+        if rng.random() < 0.6 or not stdkw:
+            stdkw["bin_no"] = int(rng.integers(1, 9))
     # directions
     direction = angles = None
     tol = np.pi / 8
@@ -221,7 +228,7 @@ def gen_cfg(rng, thorough, force=None):
     est = "matheron" if rng.random() < 0.55 else "cressie"
     return dict(structured=structured, latlon=latlon, dim=dim, n=n, nf=nf, shape=shape, axes=axes, coords=coords, pos_arg=pos_arg,
                 data=data.reshape(nf, -1), fmask=fmask.reshape(nf, -1), gmask=gmask, field_arg=field_arg, no_data=no_data,
-                edges=edges, geo=geo, direction=direction, angles=angles, tol=tol, bw=bw, samp=samp, est=est)
+                edges=edges, stdkw=stdkw, geo=geo, direction=direction, angles=angles, tol=tol, bw=bw, samp=samp, est=est)
 
 
 def call_impl(gs, cfg):
@@ -238,17 +245,24 @@ def call_impl(gs, cfg):
         kw.update(angles=np.copy(cfg["angles"]), angles_tol=cfg["tol"], bandwidth=cfg["bw"])
     if cfg["samp"] is not None:
         kw.update(sampling_size=cfg["samp"][0], sampling_seed=cfg["samp"][1])
+    kw.update(cfg.get("stdkw", {}))
     return gs.vario_estimate(cfg["pos_arg"], cfg["field_arg"], **kw)
 
 
 def cfg_case(cfg):
     out = {k: cfg[k] for k in ("structured", "latlon", "dim", "n", "nf", "no_data", "geo", "tol", "bw", "samp", "est")}
+    out["stdkw"] = cfg.get("stdkw", {})
     out["shape"] = list(cfg["shape"])
     for k in ("coords", "data", "fmask", "gmask", "edges", "direction", "angles"):
         out[k] = None if cfg[k] is None else arr_desc(cfg[k])
     if cfg["axes"] is not None:
         out["axes"] = [arr_desc(a) for a in cfg["axes"]]
     return out
+
+
+def model_std_bins(drv, latlon, geo, pos, kw):
+    return drv.call("std_bins_kw", bool(latlon), float(geo), np.asarray(pos, float),
+                    "bin_no" in kw, ("n", kw.get("bin_no", 0)), "max_dist" in kw, float(kw.get("max_dist", 0.0)))
 
 
 def model_run(drv, cfg):
@@ -279,11 +293,12 @@ def model_run(drv, cfg):
         idx = np.random.RandomState(cfg["samp"][1]).choice(np.arange(n1), cfg["samp"][0], replace=False)   # oracle
         p, f = drv.call("pre_sample", idx.astype(np.int64), p, f)
     if cfg["edges"] is None:
-        if p.shape[1] == 0:
+        kw = cfg.get("stdkw", {})
+        if p.shape[1] == 0 and not ("bin_no" in kw and "max_dist" in kw):
             # no point left (everything masked) and no bins given: standard bins of an empty cloud are undefined;
             # the implementation raises ValueError (numpy: zero-size reduction) — outside the property
             return dict(error="ValueError")
-        e_user = drv.call("std_bins", bool(cfg["latlon"]), float(cfg["geo"]), p)
+        e_user = model_std_bins(drv, cfg["latlon"], cfg["geo"], p, cfg.get("stdkw", {}))
     else:
         e_user = np.asarray(cfg["edges"], float)
     cen = drv.call("centers", e_user)
@@ -323,12 +338,12 @@ def correspondence(ctx, rng, gs, drv, n_cases, thorough):
         cfg = gen_cfg(rng, thorough)
         key = ("pre", cfg["structured"], cfg["latlon"], cfg["dim"], cfg["nf"], cfg["gmask"] is not None, bool(cfg["fmask"].any()),
                not np.isnan(cfg["no_data"]), cfg["edges"] is None, cfg["direction"] is not None, cfg["angles"] is not None,
-               cfg["samp"] is not None, cfg["est"])
+               cfg["samp"] is not None, cfg["est"], tuple(sorted(cfg["stdkw"])))
         ctx.count(key if cfg["n"] >= 3 else None,
                   hist=dict(entry="correspondence", mesh="structured" if cfg["structured"] else "unstructured", latlon=cfg["latlon"],
                             dim=cfg["dim"], n=cfg["n"], nf=cfg["nf"], est=cfg["est"],
                             directional=(cfg["direction"] is not None or cfg["angles"] is not None), sampling=cfg["samp"] is not None,
-                            bins="default" if cfg["edges"] is None else "given"))
+                            bins=("default" + "".join("+" + k for k in sorted(cfg["stdkw"]))) if cfg["edges"] is None else "given"))
         if it < 3:
             ctx.sample(dict(kind="correspondence", **{k: v for k, v in cfg_case(cfg).items() if k not in ("coords", "data", "fmask")}))
         with Capture() as cap:
@@ -360,7 +375,8 @@ def correspondence(ctx, rng, gs, drv, n_cases, thorough):
                     problems.append("bin edges handed to the kernel")
             else:
                 # default bins: box diameter via BLAS dot (may fuse multiply-add), lat-lon via numpy trig kernels
-                if not rel_close(m["edges"], rec["edges"], rtol=1e-9 if cfg["latlon"] else 1e-12):
+                # (with a user max_dist only linspace and the division by geo_scale are involved: 1e-15)
+                if not rel_close(m["edges"], rec["edges"], rtol=1e-15 if "max_dist" in cfg["stdkw"] else (1e-9 if cfg["latlon"] else 1e-12)):
                     problems.append("standard bins")
                 exact = exact and C.bit_equal(m["edges"], rec["edges"])
             if (m["dirs"] is None) != (rec["kind"] == "u"):
@@ -381,7 +397,7 @@ def correspondence(ctx, rng, gs, drv, n_cases, thorough):
         if m["gamma"] is None:
             problems.append("model kernel rejected the arguments")
         elif not problems:
-            if not rel_close(m["centers"], cen, rtol=1e-9 if cfg["edges"] is None else 1e-15):
+            if not rel_close(m["centers"], cen, rtol=1e-15 if (cfg["edges"] is not None or "max_dist" in cfg["stdkw"]) else 1e-9):
                 problems.append("bin centres")
             same_counts = np.shape(m["counts"]) == np.shape(cnt) and bool(np.all(np.asarray(m["counts"]) == np.asarray(cnt)))
             if exact:
@@ -395,6 +411,57 @@ def correspondence(ctx, rng, gs, drv, n_cases, thorough):
             bad.append((", ".join(problems), cfg, dict(model={k: (None if v is None else np.asarray(v).tolist()) for k, v in m.items()},
                                                        impl=None if rec is None else {k: (v.tolist() if isinstance(v, np.ndarray) else v) for k, v in rec.items()},
                                                        result=[np.asarray(x).tolist() for x in res])))
+    return bad
+
+
+def std_bins_correspondence(ctx, rng, gs, drv, n_cases):
+    """gstools.variogram.standard_bins called directly (all argument combinations) vs the model std_bins_kw, and its
+    unit law: lat-lon bins for geo_scale = s and max_dist = m s are s times the radian bins for max_dist = m"""
+    bad = []
+    for it in range(n_cases):
+        latlon = rng.random() < 0.5
+        dim = 2 if latlon else int(rng.integers(1, 4))
+        structured = rng.random() < 0.3
+        if structured:
+            shape = tuple(int(x) for x in rng.integers(1, 5, size=dim))
+            axes = ([np.sort(rng.uniform(-80, 80, shape[0])), np.sort(rng.uniform(-170, 170, shape[1]))] if latlon
+                    else [np.sort(rng.normal(size=k) * 2) for k in shape])
+            pos_arg = tuple(axes)
+            coords = np.asarray(drv.call("generate_grid", *axes), float).reshape(dim, -1)
+        else:
+            n = int(rng.choice([1, 2, 3, 5, 8, 13, 21, 64, 100]))
+            coords = np.vstack([rng.uniform(-85, 85, n), rng.uniform(-180, 180, n)]) if latlon else rng.normal(size=(dim, n)) * 2
+            pos_arg = tuple(coords) if rng.random() < 0.7 else coords
+        geo = float(rng.choice([1.0, DEG, KM, 3.7])) if latlon else 1.0
+        kw = {}
+        m_rad = float(rng.uniform(0.1, 2.5))
+        if rng.random() < 0.6:
+            kw["max_dist"] = m_rad * geo if latlon else float(rng.uniform(0.5, 6.0))
+        if rng.random() < 0.5:
+            kw["bin_no"] = int(rng.integers(1, 12))
+        ctx.count(("standard_bins", latlon, dim, structured, coords.shape[1], geo, tuple(sorted(kw))),
+                  hist=dict(entry="correspondence-standard_bins", latlon=latlon, dim=dim, n=coords.shape[1],
+                            bins="default" + "".join("+" + k for k in sorted(kw))))
+        case = dict(latlon=latlon, dim=dim, structured=structured, geo_scale=geo, kw=kw, coords=arr_desc(coords))
+        try:
+            impl = np.asarray(gs.variogram.standard_bins(pos_arg, dim, latlon, mesh_type="structured" if structured else "unstructured",
+                                                         geo_scale=geo, **kw), float)
+        except Exception as e:   # noqa
+            bad.append(("standard_bins raised %s: %s" % (type(e).__name__, e), case, {}))
+            continue
+        mod = np.asarray(model_std_bins(drv, latlon, geo, coords, kw), float)
+        rt = 1e-15 if "max_dist" in kw else (1e-9 if latlon else 1e-12)
+        if not rel_close(mod, impl, rtol=rt, atol=1e-300):
+            bad.append(("standard_bins vs model std_bins_kw", case, dict(model=mod.tolist(), impl=impl.tolist())))
+        if latlon and geo != 1.0:
+            kw1 = dict(kw)
+            if "max_dist" in kw1:
+                kw1["max_dist"] = m_rad
+            rad = np.asarray(gs.variogram.standard_bins(pos_arg, dim, True, mesh_type="structured" if structured else "unstructured", **kw1), float)
+            if not rel_close(rad * geo, impl, rtol=1e-12, atol=1e-300):
+                ctx.violation("probe: standard_bins in a length unit = unit x radian bins",
+                              "standard_bins(latlon, geo_scale=s, max_dist=m s) is not s x standard_bins(latlon, max_dist=m)",
+                              dict(case, radian=rad.tolist(), unit=impl.tolist()), key="latlon:standard_bins-unit")
     return bad
 
 
@@ -702,6 +769,25 @@ def probes(ctx, rng, gs, reps, thorough):
                         nr = near_threshold(ll, edges_rad, latlon=True, eps=1e-10)
                     P.same("great-circle binning in a length unit = binning in radians after unit conversion", "latlon:geo_scale",
                            R, B, base, near=nr, center_factor=s)
+            # standard_bins overrides in the unit: max_dist = m s [, bin_no = k]  <->  max_dist = m in radians
+            m_rad = float(rng.uniform(0.3, 2.5))
+            for kwr in (dict(max_dist=m_rad), dict(max_dist=m_rad, bin_no=int(rng.integers(2, 9))), dict(bin_no=int(rng.integers(2, 9)))):
+                R = P.ve(tuple(ll), f if nf > 1 else f[0], dict(n=n), latlon=True, estimator=est, **kwr)
+                if R is None:
+                    continue
+                k = len(R[0])
+                top = (R[0][-1] + R[0][0]) if k else 0.0
+                nr = near_threshold(ll, np.linspace(0, top, k + 1), latlon=True, eps=1e-10)
+                for s in (DEG, KM, 3.7):
+                    kws = dict(kwr)
+                    if "max_dist" in kws:
+                        kws["max_dist"] = m_rad * s
+                    base = dict(n=n, nf=nf, est=est, geo_scale=s, std_bins=kws, latlon=arr_desc(ll), field=arr_desc(f))
+                    ctx.count(("geo_scale-kw", n, nf, est, s, tuple(sorted(kws))),
+                              hist=dict(entry="probe-latlon", n=n, nf=nf, geo_scale=s, bins="default" + "".join("+" + q for q in sorted(kws))))
+                    B = P.ve(tuple(ll), f if nf > 1 else f[0], base, latlon=True, geo_scale=s, estimator=est, **kws)
+                    P.same("lat-lon standard bins with max_dist / bin_no given in the unit = radian bins after unit conversion",
+                           "latlon:geo_scale:std_bins-overrides", R, B, base, near=nr, center_factor=s)
             # rigid motion on the sphere that vario_estimate can express: shifting all longitudes, mirroring latitudes
             ctx.count(("latlon-shift", n, nf, est), hist=dict(entry="probe-latlon", n=n, nf=nf, geo_scale="lon-shift", bins="given"))
             R = P.ve(tuple(ll), f if nf > 1 else f[0], dict(n=n), bin_edges=er, latlon=True, estimator=est)
@@ -828,7 +914,7 @@ def run(ctx):
         else:
             tie_broken.append("extraction/driver: " + out[-400:])
     ctx.tie["vario_estimate preprocessing (VarioPre: pre_mask, pre_no_data, pre_drop_missing, pre_dirs, ang2dir_row, sep_test, pre_sample, "
-            "std_bins, pre_edges, centers, generate_grid)"] = "hand model + correspondence (arguments handed to the kernels and results)"
+            "std_bins_kw (Sturges / box diameter / linspace with the bin_no, max_dist overrides; also vs standard_bins called directly), pre_edges, centers, generate_grid)"] = "hand model + correspondence (arguments handed to the kernels and results)"
     ctx.tie["unstructured_spec / directional"] = "spec proved equal to the translated kernel (C15/C08) / translated kernel; executed on the model's preprocessed arrays"
     t1 = time.time()
     try:
@@ -836,6 +922,7 @@ def run(ctx):
         bad = []
         if drv is not None:
             bad = correspondence(ctx, rng, gs, drv, 40000 if thorough else 4000, thorough)
+            bad += std_bins_correspondence(ctx, rng, gs, drv, 3000 if thorough else 400)
         t2 = time.time()
         probes(ctx, rng, gs, 400 if thorough else 40, thorough)
         axis_probes(ctx, rng, gs, 400 if thorough else 40)
